@@ -98,7 +98,7 @@ CallEndOK(e) ==
 Settled(o) == IF o.ev = "call.end" THEN CallEndOK(o) ELSE hctx[o.r] \in {"cancelled"} \/ rp[o.r] = "done"
 Owe(e) == IF e.ev = "call.end" THEN [ev |-> "call.end", k |-> e.k, r |-> "", kind |-> e.kind, code |-> e.code]
           ELSE [ev |-> "h.ctxdone", k |-> "", r |-> e.r, kind |-> "", code |-> 0]
-IsMarker(e) == e.ev \in {"step", "drain1", "quiesce1", "cleanup"}
+IsMarker(e) == (e.ev = "step" /\ e.quiet) \/ e.ev \in {"drain1", "quiesce1", "cleanup"}
 
 \* internal steps of the SDK that are not critical sections
 Silent ==
